@@ -6,6 +6,7 @@ import datetime
 import os
 import logging
 import warnings
+from copy import deepcopy
 from typing import Dict, Union, Optional, Tuple, TYPE_CHECKING
 
 if TYPE_CHECKING:
@@ -200,9 +201,13 @@ class AquaCropModel:
         # get _weather data
         self.weather_df = read_weather_inputs(self._clock_struct, self.weather_df)
 
+        # The crop calendar is derived on a private copy of the user's crop, so that
+        # initialising again from the same Crop object starts from the same values
+        crop = deepcopy(self.crop)
+
         # read model params
         self._clock_struct, self._param_struct = read_model_parameters(
-            self._clock_struct, self.soil, self.crop, self.weather_df
+            self._clock_struct, self.soil, crop, self.weather_df
         )
 
         # read irrigation management
@@ -228,7 +233,7 @@ class AquaCropModel:
 
         # read, calculate inital conditions
         self._param_struct, self._init_cond = read_model_initial_conditions(
-            self._param_struct, self._clock_struct, self.initial_water_content, self.crop
+            self._param_struct, self._clock_struct, self.initial_water_content, crop
         )
 
         self._param_struct = create_soil_profile(self._param_struct)
